@@ -11,7 +11,7 @@
 From Coq Require Import String List ZArith NArith Bool.
 Import ListNotations.
 From Selfies Require Import Base Generated Lex Atoms Grammar Decoder StateFacts IndexSpec IndexCode Reader DocGrammar DecoderBasics
-  CompatFacts DecoderInv DecoderTree DecoderSum TokFacts DeriveOk WriterSim WriterFinal.
+  CompatFacts DecoderInv DecoderTree DecoderSum TokFacts DeriveOk WriterSim WriterFinal RingCount CompatTotal.
 Local Open Scope string_scope.
 Local Open Scope Z_scope.
 
@@ -55,28 +55,31 @@ Theorem C02_index_code_partial : forall syms : list (option str),
 Proof. exact get_index_is_base16. Qed.
 
 
-(* the molecule denoted by the output is the decoder's graph *)
-Theorem C02_output_denotes_graph_partial : forall T s attribute out maps,
-  (exists c, assoc (lit "?") T = Some c) -> symbols_short s ->
-  decoder T s false attribute = Ok (out, maps) ->
-  (forall m, decode_graph T s false attribute = Ok m -> (length (ring_pairs m) < 100)%nat) ->
-  exists m ord, decode_graph T s false attribute = Ok m /\ NoDup ord /\ (forall j, In j ord <-> (j < natoms m)%nat) /\
+(* the molecule denoted by the output is the decoder's graph: either flag, hypotheses on the input string alone
+   (symbols within the int() digit limit, fewer than 100 ring symbols) *)
+Theorem C02_output_denotes_graph_partial : forall T s compat attribute out maps,
+  (exists c, assoc (lit "?") T = Some c) -> symbols_short s -> (ring_symbol_count s compat < 100)%nat ->
+  decoder T s compat attribute = Ok (out, maps) ->
+  exists m ord, decode_graph T s compat attribute = Ok m /\ NoDup ord /\ (forall j, In j ord <-> (j < natoms m)%nat) /\
     read_smiles out = Some {| sm_atoms := map (aat m) ord; sm_nbrs := map (frow m ord) ord |}.
 Proof.
-  intros T s attribute out maps Hq Hs E Hr.
-  assert (Hd : frags_ok s false) by (apply tokenize_all_ok; now apply digits_ok_of_symbols).
-  unfold decoder, decoder_c in E. change (decode_graph_c (get_bonding_capacity T) s false attribute) with (decode_graph T s false attribute) in E.
-  destruct (decode_graph T s false attribute) as [m|] eqn:Eg; cbn [bind] in E; [|discriminate].
-  destruct (decode_graph_ok2 T s false attribute m Hq Hd Eg) as [HG HT].
-  destruct (printed_reads T m HG HT (Hr m eq_refl) out maps E) as (ord & A & B & C). exists m, ord. auto.
+  intros T s compat attribute out maps Hq Hs Hr E.
+  pose proof (frags_ok_of_symbols s compat Hs) as Hd.
+  unfold decoder, decoder_c in E. change (decode_graph_c (get_bonding_capacity T) s compat attribute) with (decode_graph T s compat attribute) in E.
+  destruct (decode_graph T s compat attribute) as [m|] eqn:Eg; cbn [bind] in E; [|discriminate].
+  destruct (decode_graph_ok2 T s compat attribute m Hq Hd Eg) as [HG HT].
+  assert (Hr' : (length (ring_pairs m) < 100)%nat).
+  { apply Nat.le_lt_trans with (ring_symbol_count s compat); [|exact Hr]. exact (ring_pairs_le_symbols (get_bonding_capacity T) s compat attribute m Eg). }
+  destruct (printed_reads T m HG HT Hr' out maps E) as (ord & A & B & C). exists m, ord. auto.
 Qed.
 
 (* every rejection is a DecoderError ... *)
-Theorem C02_rejection_is_decoder_error_partial : forall T s attribute e,
+Theorem C02_rejection_is_decoder_error_partial : forall T s compat attribute e,
   (exists c, assoc (lit "?") T = Some c) -> symbols_short s ->
-  decoder T s false attribute = Err e -> e = DecoderError.
+  decoder T s compat attribute = Err e -> e = DecoderError.
 Proof.
-  intros T s attribute e Hq Hs E. destruct (decoder_total_ok T s attribute Hq (digits_ok_of_symbols s Hs)) as [[o Ho]|Hd]; congruence.
+  intros T s compat attribute e Hq Hs E.
+  destruct (decoder_total_ok_c T s compat attribute Hq (frags_ok_of_symbols s compat Hs)) as [[o Ho]|Hd]; congruence.
 Qed.
 
 (* ... strings made of symbols of the grammar, brackets closed, are never rejected ... *)
